@@ -142,13 +142,25 @@ def _check_inverse_pair(r, mode):
     return {'nontrivial': True, 'classes': ['inverse_pair:' + f]}
 
 
+@st.composite
+def toeplitz_case(draw, mode):
+    G = gen.GenCtx(mode, cap=24)
+    n = draw(st.integers(2, 12))
+    S = St.leaf([n] if draw(st.booleans()) else [draw(st.integers(1, 2)), n], draw(st.sampled_from(gen.dtypes(mode))))
+    r = gen.g_toeplitz(draw, G, S)
+    r['method'] = draw(st.sampled_from([None, None, 'overlap_save', 'fft', 'direct', 'dense']))
+    if r['method'] not in (None, 'overlap_save') or draw(st.booleans()):
+        r['fft_size'] = None
+    return {'defs': [], 'expr': r, 'probe': draw(st.lists(st.integers(0, 1000), min_size=8, max_size=8))}
+
+
 def strategy(tier, mode):
     from .c08 import single_case
 
     return st.one_of(single_case(mode), single_case(mode), single_case(mode),
                      gen.expression_case(mode, cap=16, max_len=4, depth=2),
                      gen.expression_case(mode, cap=16, max_len=4, depth=2),
-                     landscape_case(mode), inverse_pair_case(mode))
+                     landscape_case(mode), inverse_pair_case(mode), toeplitz_case(mode))
 
 
 def _has_mask(r, defs):
